@@ -3,7 +3,7 @@ import re
 
 from hypothesis import strategies as st
 
-from .. import darwin, domains, events as EV, scenario as SC, strategies as S, textparse as TP
+from .. import darwin, dictionary as DI, domains, events as EV, scenario as SC, strategies as S, textparse as TP
 from ..core import Violation, guard
 from .c09 import render, renderings, distinct_words
 
@@ -14,7 +14,7 @@ RULE = ('every decoded BSD syscall except the statement\'s exemption list (writt
         'word of the window. Oracle: error != 0 => the result part is exactly "errno: NAME(code)" or "errno: code" '
         'with that code, NAME in [A-Z0-9]+, and no rendering of the return word; error == 0 => no errno and every '
         'numeric literal of the result part is a rendering of END word 1 (pipe: words 1 and 2; booleans allowed). '
-        'Metamorphic: result part invariant under START changes, call part invariant under END changes; overlap: two '
+        'START words also take every integer constant reachable from the decoder\'s own code (vf/dictionary.py). Metamorphic: result part invariant under START changes, call part invariant under END changes; overlap: two '
         'calls of one thread with crossing or nested windows each show the error of their OWN END. '
         'Non-trivial: error != 0 with a non-zero return word, or error == 0 with return word >= 2^31; distinct by '
         '(decoder, END tuple).')
@@ -39,6 +39,12 @@ def prop_result(ctx, case):
     if case.get('force'):
         a = list(a)
         a[case['force'][0]] = case['force'][1]
+        if case.get('magic'):
+            d = domains.project(name, 1, a)
+            if [int.from_bytes(d[8 * i:8 * i + 8], 'little') for i in range(4)] != a:
+                return      # the value is outside the domain of this (enum-valued) slot
+            if any(not renderings(a[case['force'][0]]).isdisjoint(renderings(x)) for j, x in enumerate(a + e) if j != case['force'][0]):
+                return
     e = [err] + e[1:]
     if not renderings(err).isdisjoint(renderings(e[1])) and err:
         return
@@ -83,7 +89,7 @@ def prop_result(ctx, case):
         if sc2 is None or sc2[2] != rest:
             raise Violation(f'result-depends-on-start:{name}', f'{name}: {txt!r} vs {txt2!r}')
     nt = (err != 0 and e[1] != 0) or (err == 0 and e[1] >= 2 ** 31)
-    ctx.note([name, e[:2]], nontrivial=nt, classes=['error' if err else 'success', 'nested' if nn else 'bare', *(['long-window'] if nn > 200 else []), 'unknown-code' if err > 106 else 'darwin-code' if err else 'zero'])
+    ctx.note([name, e[:2], case.get('force')], nontrivial=nt, classes=['error' if err else 'success', *(['magic-start-value'] if case.get('magic') else []), 'nested' if nn else 'bare', *(['long-window'] if nn > 200 else []), 'unknown-code' if err > 106 else 'darwin-code' if err else 'zero'])
 
 
 def prop_overlap(ctx, case):
@@ -140,6 +146,13 @@ def run(ctx):
                 for j, v in enumerate(vals):
                     enum_cases.append({'name': n, 'seed': base + 7 * j + k, 'err': [13, 9, 35, 2 ** 31][j % 4], 'nested': j % 2, 'force': [k, v]})
     ctx.run_enum('result', enum_cases, prop_result, exhaustive_label='every value of every enum-valued START argument with a failing END')
+    # values the decoder itself spells out (constants reachable from its code: request numbers, special descriptors, masks):
+    # a failing call whose START word is one of them still reports its error
+    from pykdebugparser.trace_handlers import bsd
+    magic = DI.magic_table(bsd.handlers)
+    magic_cases = [{'name': n, 'seed': base + 3 * j + k, 'err': [13, 2, 2 ** 31, 0][(j + k) % 4], 'nested': 0, 'force': [k, v], 'magic': True}
+                   for n in ns for j, v in enumerate(magic.get(n, [])) for k in range(4)]
+    ctx.run_enum('result', magic_cases, prop_result, exhaustive_label='every decoder x every integer constant reachable from its own code x 4 START slots')
     ov = st.fixed_dictionaries({'x': st.sampled_from(ns), 'y': st.sampled_from(ns), 'seed': st.integers(0, 2 ** 62),
                                 'ex': st.sampled_from([0, 9, 13, 35]), 'ey': st.sampled_from([0, 1, 2, 60]), 'crossing': st.booleans()})
     ctx.run_given('overlap', ov, prop_overlap, ctx.n(500, 10000))
